@@ -109,8 +109,30 @@ func checkCore(c Case) error {
 	if c.AfterPanic {
 		runtime.LockOSThread()
 		defer runtime.UnlockOSThread()
+		// which failures come last decides what the case meets (a later failing render tidies up after an
+		// earlier one): only panics, only ordinary failures, or both — chosen by the case
+		mode := len(recipe.JSON(c.File)) % 3
 		poison = func() {
 			for i := 0; i < 3; i++ {
+				// renders that fail in the ordinary ways: code gofmt rejects, a writer that fails
+				if mode != 0 {
+					func() {
+						defer func() { _ = recover() }()
+						f := jen.NewFile("leak")
+						f.Func().Id("leakedfunc").Params().Block(jen.Id("leakedbody").Op(")"))
+						_ = f.Render(&bytes.Buffer{})
+						_ = jen.Id("leakedfrag").Op("}").Render(&bytes.Buffer{})
+						_ = jen.Id("leakedfrag2").Op("}").RenderWithFile(&bytes.Buffer{}, jen.NewFile("leak"))
+						g := jen.NewFile("leak")
+						g.Var().Id("leakedok").Op("=").Lit(1)
+						_ = g.Render(failingWriter{})
+						_ = jen.Id("leakedok2").Render(failingWriter{})
+					}()
+				}
+				if mode == 1 {
+					continue
+				}
+				// ... and, last, renders that panic half-way
 				func() {
 					defer func() { _ = recover() }()
 					f := jen.NewFile("leak")
@@ -122,19 +144,7 @@ func checkCore(c Case) error {
 					defer func() { _ = recover() }()
 					_ = jen.Id("leakedstmt").Op(":=").Lit(1).Line().Lit([]int{}).Render(&bytes.Buffer{})
 				}()
-				// renders that fail in the ordinary ways: code gofmt rejects, a writer that fails
-				func() {
-					defer func() { _ = recover() }()
-					f := jen.NewFile("leak")
-					f.Func().Id("leakedfunc").Params().Block(jen.Id("leakedbody").Op(")"))
-					_ = f.Render(&bytes.Buffer{})
-					_ = jen.Id("leakedfrag").Op("}").Render(&bytes.Buffer{})
-					_ = jen.Id("leakedfrag2").Op("}").RenderWithFile(&bytes.Buffer{}, jen.NewFile("leak"))
-					g := jen.NewFile("leak")
-					g.Var().Id("leakedok").Op("=").Lit(1)
-					_ = g.Render(failingWriter{})
-					_ = jen.Id("leakedok2").Render(failingWriter{})
-				}()
+
 			}
 		}
 	}
